@@ -23,10 +23,14 @@ type params struct {
 	Incoming int      // number of incoming calls + replies the broker pushes to ReceiveCall / ReceiveReplyCall consumers
 	F        int
 	P        int
+	LateAck  bool // after the callers: a call whose caller gives up (1 s) before the broker acknowledges it, then a fresh call
 	Flood    int // replies for nobody (and incoming calls) delivered before the callers start, with no Receive* consumer: the inboxes hold 1024
 }
 
 func (p params) name() string {
+	if p.LateAck {
+		return fmt.Sprintf("%s/neg%v/sp%v/in%d/F%d/P%d/lateack", strings.Join(p.Kinds, ","), p.Neg, p.Spurious, p.Incoming, p.F, p.P)
+	}
 	if p.Flood > 0 {
 		return fmt.Sprintf("%s/neg%v/sp%v/in%d/F%d/P%d/flood%d", strings.Join(p.Kinds, ","), p.Neg, p.Spurious, p.Incoming, p.F, p.P, p.Flood)
 	}
@@ -45,6 +49,9 @@ func scenarios(tier string) []vlib.Scenario {
 	}
 	add(params{Kinds: []string{"callwait", "callwait"}, Incoming: 3, F: 1})
 	add(params{Kinds: []string{"call", "callwait"}, Incoming: 0, F: 1})
+	// an acknowledgement (and a reply) that arrive after their caller gave up must not block the dispatchers
+	add(params{Kinds: []string{"call"}, Incoming: 0, LateAck: true})
+	add(params{Kinds: []string{"callwait"}, Incoming: 0, LateAck: true, P: 1})
 	// an application that never calls ReceiveCall / ReceiveReplyCall: the inboxes are full, callers are still served
 	add(params{Kinds: []string{"callwait", "call"}, Incoming: 0, Flood: 1030})
 	if tier == "thorough" {
@@ -93,6 +100,9 @@ type action struct {
 }
 
 type world struct {
+	holdActs  bool
+	abandoned *caller
+	after     *caller
 	kit.World
 	p        params
 	callers  []*caller
@@ -155,7 +165,7 @@ func (w *world) script() *sim.Script {
 	}
 	s.OnIdle = func(b *sim.Broker) bool {
 		// when the client is quiescent: perform the pending actions in a chosen order
-		if len(w.pendingActs) == 0 {
+		if len(w.pendingActs) == 0 || w.holdActs {
 			return false
 		}
 		c := b.Live()
@@ -291,6 +301,31 @@ func (w *world) main() {
 		}
 	}
 	wg.Wait()
+	if w.p.LateAck {
+		vsched.Quiesce()
+		w.holdActs = true
+		kind := w.p.Kinds[0]
+		ab := &caller{kind: kind, tag: "abandoned"}
+		w.abandoned = ab
+		actx, acancel := kit.Ctx(time.Second)
+		w.doCall(actx, ab)
+		acancel()
+		w.holdActs = false // now the broker acknowledges (and answers) the abandoned call
+		vsched.Sleep(500*time.Millisecond, "h:late-ack")
+		vsched.Quiesce()
+		af := &caller{kind: kind, tag: "after"}
+		w.after = af
+		if kind == "callwait" {
+			w.callers = append(w.callers, af) // so that the broker schedules a reply for it
+		}
+		fctx, fcancel := kit.Ctx(10 * time.Second)
+		w.doCall(fctx, af)
+		fcancel()
+		af.done = true
+		if kind == "callwait" {
+			w.callers = w.callers[:len(w.callers)-1]
+		}
+	}
 	if w.p.Incoming > 0 {
 		vsched.Quiesce()
 		if c := w.B.Live(); c != nil {
@@ -347,6 +382,9 @@ func run(sc vlib.Scenario, cfg vsched.Config) (*vsched.Result, vlib.Verdict) {
 			v.Inconclusive = "not-completed:" + w.Phase
 		}
 		return res, v
+	}
+	if w.after != nil && w.after.err != nil {
+		v.Fail("C16.result", fmt.Sprintf("after-late-ack/%s/%s/dev=%v", w.after.kind, kit.ErrKind(w.after.err), dev), "a %s issued after the late acknowledgement of an abandoned call failed: %v (the abandoned call itself ended with %v)", w.after.kind, w.after.err, w.abandoned.err)
 	}
 	// call ids distinct
 	ids := map[string]int{}
